@@ -183,7 +183,7 @@ def correspondence(pid, tier, seed):
         rel = fam_rel.correspondence('C20', tier, seed)
         grid_broken = [b for b in rel['broken']]
     if pid in ('C11', 'C12'):
-        grid_broken, grid_n = grid_correspondence(seed, 6 if tier == 'quick' else 40)
+        grid_broken, grid_n = grid_correspondence(seed, 9 if tier == 'quick' else 60)
     usable = [(s, r) for s, r in zip(scs, res) if not (r['err'] or '').startswith('Other:Timeout') and not r.get('build_failed')]
     timeouts = len(scs) - len(usable)
     scs2 = [s for s, _ in usable]
@@ -282,11 +282,19 @@ def long_grid_scenarios(rng, n):
         sc['pos0'] = ['AngularPosition', 0.0, 'rad']
         sc['spd0'] = ['AngularSpeed', 0.0, 'rad/s']
         u = rng.choice(['sec', 'ms', 'min', 'hour'])
-        m = rng.choice([1, 7, 3, 9, 11, 13])
-        e = rng.randint(2, 5)
-        dtv = float(f'{m}e-{e}')
-        nst = rng.randint(2000, 9000)
-        Tv = float(f'{m * nst}e-{e}') if rng.random() < 0.7 else dtv * nst
+        # two cases in three: a decimal pair whose binary64 quotient T/dt is NOT the step count exactly (an ulp or two off);
+        # one in three of them BELOW the count with more than 16384 steps, where one ulp of the quotient (3.6e-12) exceeds any
+        # plausible tolerance a truncating implementation might add
+        want_inexact = i % 3 != 2
+        lo, hi = ((16400, 30000) if i % 3 == 0 else (2000, 16000))
+        for _ in range(2000):
+            m = rng.choice([1, 7, 3, 9, 11, 13])
+            e = rng.randint(2, 5)
+            dtv = float(f'{m}e-{e}')
+            nst = rng.randint(lo, hi)
+            Tv = float(f'{m * nst}e-{e}') if rng.random() < 0.7 else dtv * nst
+            if (Tv / dtv != nst) == want_inexact and (i % 3 != 0 or Tv / dtv < nst):
+                break
         sc['ops'] = [['run', ['TimeInterval', dtv, u], ['TimeInterval', Tv, u], None, None]]
         sc['flavour'] = 'longgrid'
         out.append(sc)
